@@ -99,6 +99,10 @@ MUTANTS = [
      "AegeanTools/source_finder.py",
      "        if forced_bkg is None:\n            self.global_data.bkgimg = bkg",
      "        if forced_rms is None:\n            self.global_data.bkgimg = bkg", "C01-R9"),
+    ("neighbouring island left in the cut-out (seed C01d)",
+     "AegeanTools/source_finder.py",
+     "                          (l[xmin:xmax, ymin:ymax] != i + 1)",
+     "                          (l[xmin:xmax, ymin:ymax] == 0)", "C01-R11"),
 ]
 TWINS = [
     ("radians spelled out", "AegeanTools/wcs_helpers.py",
@@ -152,6 +156,34 @@ def run(ctx):
     int_flux_formula(ctx, prog, prog.module("source_finder"), rule="C01-R7")
     # ---------------------------------------------------------------- R9
     r9(ctx, prog)
+    # ---------------------------------------------------------------- R11
+    ctx.rule("C01-R11", "isolation of the fitted pixels: the cut-out handed "
+             "to the fit is blanked wherever a pixel carries ANOTHER "
+             "island's label (the mask has a `labels != id` / `~own` term) "
+             "-- otherwise a neighbour inside the bounding box is fitted as "
+             "an extra summit of this island and again as its own island")
+    from ..islandmodel import IslandModel
+    im_ = IslandModel(prog)
+    bl = im_.blanking_masks()
+    ctx.floor("C01-R11", len(bl), 1, "NaN-blanking statements in the island "
+              "loop")
+    for st_, mk_ in bl:
+        parts = []
+        stack = [mk_]
+        while stack:
+            x_ = stack.pop()
+            if isinstance(x_, ast.BinOp) and isinstance(x_.op, ast.BitOr):
+                stack += [x_.left, x_.right]
+            elif isinstance(x_, ast.Call) and norm(x_.func) in (
+                    "np.logical_or", "numpy.logical_or"):
+                stack += list(x_.args)
+            else:
+                parts.append(x_)
+        ctx.check("C01-R11", im_.fi, "blanking mask " + norm(mk_, 80),
+                  any(im_.other_label_term(p_) for p_ in parts),
+                  "the mask %s has no term excluding the pixels of other "
+                  "labelled groups: a disjoint neighbour inside the box is "
+                  "reported twice" % norm(mk_, 80), node=st_)
     # ------------------------------------------------------------ frame rule
     ctx.rule("C01-R10", "fitting works on copies: no in-place write (masking with "
              "NaN, -=, fill) goes through a view of the shared image / "
